@@ -301,7 +301,7 @@ func (v *VM) exec() {
 		case codeFastGetInt:
 			i := &codes[v.frame.N]
 			r := v.stack[baseN+int(i.A)]
-			val, _ := r.Get(Int(int(i.B)))
+			val, _ := r.Get(newUntypedInt(int(i.B))) // the key PUSH would have pushed: an untyped constant, not cut to 32 bits
 			v.stack = append(v.stack, val)
 
 		case codeFastSetInt:
@@ -309,7 +309,7 @@ func (v *VM) exec() {
 			val := v.stack[len(v.stack)-1]
 			v.stack = v.stack[:len(v.stack)-1]
 			r := v.stack[baseN+int(i.A)]
-			r.Set(Int(int(i.B)), val)
+			r.Set(newUntypedInt(int(i.B)), val)
 
 		case codeFastCall:
 			i := &codes[v.frame.N]
